@@ -15,7 +15,7 @@ from numbers import Integral
 
 import networkx
 
-from cnfgen.localtypes import positive_int, non_negative_int
+from cnfgen.localtypes import positive_int, non_negative_int, seed_value
 # (numbers and blanks in graph files are the ones of DIMACS files:
 # python's `int` and `split` also take '1_0', non ASCII digits and
 # separators like U+001C or U+2028)
@@ -1737,7 +1737,7 @@ def bipartite_random_left_regular(l, r, d, seed=None):
     """
     import random
     if seed is not None:
-        random.seed(seed)
+        random.seed(seed_value(seed))
 
     if l < 0 or r < 0 or d < 0:
         raise ValueError(
@@ -1785,7 +1785,7 @@ def bipartite_random_m_edges(L, R, m, seed=None):
     """
     import random
     if seed is not None:
-        random.seed(seed)
+        random.seed(seed_value(seed))
 
     if L < 1 or R < 1 or m < 0 or m > L * R:
         raise ValueError(
@@ -1842,7 +1842,7 @@ def bipartite_random(L, R, p, seed=None):
     """
     import random
     if seed is not None:
-        random.seed(seed)
+        random.seed(seed_value(seed))
 
     if L < 1 or R < 1 or p < 0 or p > 1:
         raise ValueError(
@@ -1943,17 +1943,17 @@ def bipartite_random_regular(l, r, d, seed=None):
 
     import random
     if seed is not None:
-        random.seed(seed)
+        random.seed(seed_value(seed))
 
     if l < 0 or r < 0 or d < 0:
         raise ValueError("bipartite_random_regular(l,r,d) needs l,r,d >=0.")
 
-    if (l * d) % r != 0:
-        raise ValueError(
-            "bipartite_random_regular(l,r,d) needs r to divid l*d.")
-
     if l > 0 and d > r:
         raise ValueError("bipartite_random_regular(l,r,d) needs d <= r.")
+
+    if r > 0 and (l * d) % r != 0:
+        raise ValueError(
+            "bipartite_random_regular(l,r,d) needs r to divid l*d.")
 
     name = "bipartite_random_regular({},{},{})".format(l, r, d)
 
@@ -1988,7 +1988,7 @@ def _bipartite_random_regular_attempt(l, r, d):
 
     L, R = G.parts()
     A = list(L) * d
-    B = list(R) * (l * d // r)
+    B = list(R) * (l * d // r) if r > 0 else []
     assert len(B) == l * d
 
     for i in range(l * d):
@@ -2156,7 +2156,7 @@ def split_random_edges(G,k, seed=None):
     7
     """
     if seed is not None:
-        random.seed(seed)
+        random.seed(seed_value(seed))
 
     if not isinstance(G,Graph):
         raise TypeError("Edge splitting is only implemented for simple graphs")
@@ -2200,7 +2200,7 @@ def add_random_missing_edges(G, m, seed=None):
 
     """
     if seed is not None:
-        random.seed(seed)
+        random.seed(seed_value(seed))
 
     if m < 0:
         raise ValueError("You can only sample a non negative number of edges.")
